@@ -180,7 +180,7 @@ func watchdog(f func() (string, string)) (impl, oracle string, ok bool) {
 	select {
 	case r := <-ch:
 		return r.impl, r.oracle, true
-	case <-time.After(10 * time.Second):
+	case <-time.After(30 * time.Second):
 		return "hang", "class=hang no answer within 10s", false
 	}
 }
